@@ -14,6 +14,11 @@ CLAIMED = {
    note="Trusted: TLC, SigmaStr semantics (backslash escapes only * ? and backslash), the configuration family in StrConfigs.tla (all well-formed: escape char is itself escaped), Python's re.fullmatch as definition of regex matching. One recorded deviation (Dev_PlainBackslashBeforeSpecial).",
    technique="TLA+ string/escaping model checked with TLC; exhaustive TLC-generated strings replayed into the code; TLC decodes and judges recorded renderings",
    ref="6/C05"),
+ "C04": dict(level=MC,
+   text="TLC model-checks spec/Encoding.tla (UTF-8/UTF-16/Base64 by integer arithmetic; for every payload <=3/4 characters with 1-4 byte encodings: Base64 decode inverts encode, the maximal offset triple covers every alignment, each element is implied by the payload alone and is maximal, locality lemma). TLC-enumerated payloads x 13 modifier chains are replayed into SigmaDetectionItem.from_mapping and TLC judges the recorded values byte-exactly (base64, wide/utf16/utf16be) and, for base64offset, against 15 prefixes x 7 suffixes of neighbour bytes (covering + implied).",
+   note="Trusted: TLC, the arithmetic definitions in Encoding.tla (cross-checked by round trip and RFC test vectors inside MC_Encoding), neighbour bytes restricted to {00,FF} justified by the model-checked locality lemma. One recorded deviation (utf16 BOM).",
+   technique="TLA+ byte-level encoding model checked with TLC (alignment theorem); TLC-generated payloads replayed into the modifiers; TLC judges recorded values",
+   ref="6/C04"),
 }
 REASON_NOT_BUILT = "check not built yet in this round (see DESIGN.md section 6 for the planned TLA+ model); not claimed until its judge is sound"
 ALL = [f"C{i:02d}" for i in range(1, 21)]
